@@ -381,6 +381,12 @@ func (c11) Eval(t *testing.T, c *Case, dec func(int) *Decider) *Outcome {
 		}
 		dir, code, stderr, err := realSignalRun(bin, sc, p, spec, preload)
 		o.RealProc++
+		if err != nil && strings.Contains(err.Error(), "did not terminate within") {
+			// once more: a process that hangs twice in a row hangs; a single stall on a loaded machine is only noted
+			o.Notes = append(o.Notes, "a real-process run stalled once: "+err.Error())
+			dir, code, stderr, err = realSignalRun(bin, sc, p, spec, preload)
+			o.RealProc++
+		}
 		if err != nil {
 			o.viol(prop, "termination", "real-process:"+errClass(err.Error()), err.Error())
 		} else {
